@@ -247,7 +247,7 @@ func (c Int32) Erf(a ConstScalar) Scalar {
 }
 func (c Int32) Erfc(a ConstScalar) Scalar {
   x := a.GetFloat64()
-  c.SetFloat64(math.Erf(x))
+  c.SetFloat64(math.Erfc(x))
   return c
 }
 func (c Int32) LogErfc(a ConstScalar) Scalar {
